@@ -179,7 +179,7 @@ applies to the printed text — reduces again.  `Loc.k3One` is exactly that shap
 whether it arises anywhere in the evaluation.  Results:
 
   operation                      closed?   theorem
-  `Join` (the reduction itself)  no        `join_canon_full_refuted`, `join_canon_partial`
+  `Join` (the reduction itself)  no        `join_canon_full_refuted`, `join_canon_adj_refuted`, `join_canon_partial`
   `Shift(i, n)`, `0 ≤ n`         YES       `shift_canon` (no guard: an insertion moves the keys of
                                            neighbouring parts by jointly injective maps, no rule fires)
   `Expand(i, n)`, `0 ≤ n`        yes for well-formed locations: `expand_insert_canon_partial`
@@ -231,6 +231,16 @@ theorem join_canon_partial (xs : List Loc) (hne : xs ≠ []) (hc : canonPList xs
     intro he
     simp only [flatJList, List.append_eq_nil_iff] at he
     exact this he.1
+
+/-- the guard `noAdjCompl` of `join_canon_partial` cannot be dropped: two neighbouring `Complemented`
+arguments are merged by re-joining their insides, and K3 arises INSIDE that merge, out of sight of
+`joinK3`: `Join(complement(4), complement(join(4,3^4)))` is `complement(join(4,4))`. -/
+theorem join_canon_adj_refuted :
+    ¬ (∀ xs : List Loc, xs ≠ [] → canonPList xs = true → joinK3 xs = false → canonP (join xs) = true) := by
+  intro h
+  have := h [compl (point 3), compl (joined [point 3, between 3])] (by simp) (by decide) (by decide)
+  revert this
+  decide
 
 /-- non-vacuity: a merge, a dropped duplicate, a replacing push and a complemented part -/
 example : ([ranged 0 3 true false, ranged 3 6 false false, between 9, point 9, point 9,
